@@ -40,6 +40,8 @@ func main() {
 		os.Exit(worker(os.Args[2:]))
 	case "replay":
 		os.Exit(replay(os.Args[2:]))
+	case "c10digest":
+		fmt.Println(props.C10Digest())
 	case "list":
 		for _, id := range props.IDs() {
 			fmt.Println(id)
